@@ -37,7 +37,7 @@ func init() {
 		{ID: "E8.form.values", Fn: "op.AuthResponseFormPost", P: []string{"res", "redirectURI", "response", "encoder"}, Kind: "call", Pat: "op.formPostTmpl.Execute($w, &_{RedirectURI: $redirectURI, Params: $values})", Max: 1,
 			Req: []string{"(ok($encoder.Encode($response, $values)) && def($values, make(__))) || (def($values, httphelper.URLEncodeParams($response, $encoder), 0) && ok(httphelper.URLEncodeParams($response, $encoder)))"}},
 		{ID: "E8.form.written-after-render", Fn: "op.AuthResponseFormPost", P: []string{"res", "redirectURI", "response", "encoder"}, Kind: "call", Pat: "$buf.WriteTo($res)", Max: 1,
-			Req: []string{"ok(op.formPostTmpl.Execute(&$buf, _)) || ok(op.formPostTmpl.Execute($buf, _))"}},
+			Req: []string{"ok(op.formPostTmpl.Execute(&$buf, _)) || ok(op.formPostTmpl.Execute($buf, _)) || (didOk(Execute) && called(op.formPostTmpl.Execute(__)))"}},
 		{ID: "E8.form.code-response", Fn: "op.AuthResponseCode", Kind: "call", Pat: "op.AuthResponseFormPost(_, $authReq.GetRedirectURI(), &$resp, _)", Max: 1,
 			Req: []string{"eq($authReq.GetResponseMode(), oidc.ResponseModeFormPost)", "def($resp, _{Code: $code, State: $authReq.GetState(), SessionState: $ss})", "def($code, op.CreateAuthRequestCode(__), 0)"}},
 		{ID: "E8.encoder.provider", Fn: "op.NewProvider", Kind: "store", Pat: "store($o.encoder, oidc.NewEncoder())", Max: 1},
